@@ -130,8 +130,8 @@ Definition shape_conv (rich : bool) (fmt : pixfmt) (oc : option cursor) : option
 
 (* rfbSendCursorShape: Some (cursor after the on-demand conversions, pseudo-rectangle bytes);
    None = the C code would dereference NULL / read out of range / give up (FIXME branch).
-   v_empty = false: the code as it is; true: proposed repair notes/fix_C15_2.diff (a cursor of
-   width or height 0 is sent as "no cursor") *)
+   v_empty = true: the tree since /repo commit 0775c26 (a cursor of width or height 0 is sent as
+   "no cursor"); false: before that commit (F15b) *)
 Definition shape_msg (v_empty : bool) (rich : bool) (fmt : pixfmt) (oc : option cursor) : option (option cursor * list Z) :=
   let enc := if rich then enc_richcursor else enc_xcursor in
   match shape_conv rich fmt oc with
@@ -256,8 +256,8 @@ Fixpoint set_enc_loop (s : screen) (encs : list Z) (cl : client) : client :=
     set_enc_loop s t cl'
   end.
 
-(* v_switch = false: the code as it is; true: proposed repair notes/fix_C15_3.diff (a client that
-   had cursor-shape updates and no longer asks for them gets the cursor box redrawn) *)
+(* v_switch = true: the tree since /repo commit 2b32386 (a client that had cursor-shape updates and
+   no longer asks for them gets the cursor box redrawn); false: before that commit (F15c) *)
 Definition set_encodings (v_switch : bool) (s : screen) (encs : list Z) (cl : client) : client :=
   let c0 := mkcl false false false false (moved cl) (clx cl) (cly cl) (modif cl) (req cl) (pic cl)
                  (alive cl) (failnext cl) in
